@@ -148,9 +148,12 @@ static void emit_class(void) {
  * capacity it reports, equal the original, and survive every size-trusting mutator.  Runs in a forked child per case. */
 static void dup_probe(const char *c) {
     static const int slacks[] = {0, 1, 19, 255, 4095, 4096, 4097, 9000};
-    unsigned k;
+    static const char *contents[] = {"ab", ""};          /* incl. the EMPTY value held in a buffer (len 0, capacity > 0) */
+    unsigned k, ci;
+    for (ci = 0; ci < 2; ci++)
     for (k = 0; k < sizeof(slacks) / sizeof(slacks[0]); k++) {
         int p[2], st; pid_t pid; char why[128] = "died"; ssize_t r;
+        const char *txt = contents[ci]; int L = (int) strlen(txt);
         if (pipe(p)) return;
         fflush(stdout);
         pid = fork();
@@ -158,27 +161,27 @@ static void dup_probe(const char *c) {
             const char *msg = "ok"; int slack = slacks[k], i;
             close(p[0]); alarm(10);
             if (!strcmp(c, "mbuff")) {
-                spif_mbuff_t a = spif_mbuff_new_from_buff((spif_byteptr_t) "ab", 2, 2 + slack), b = spif_mbuff_dup(a);
-                if (!b || b == a || b->buff == a->buff) msg = "copy_shares_storage";
-                else if (b->len != 2 || memcmp(b->buff, "ab", 2)) msg = "copy_differs";
+                spif_mbuff_t a = spif_mbuff_new_from_buff((spif_byteptr_t) txt, L, L + slack), b = spif_mbuff_dup(a);
+                if (!b || b == a || (a->buff && b->buff == a->buff)) msg = "copy_shares_storage";
+                else if (b->len != L || (L && memcmp(b->buff, txt, L))) msg = "copy_differs";
 #ifdef VH_ASAN
                 else if (b->buff && __sanitizer_get_allocated_size(b->buff) < (size_t) b->size) msg = "copy_reports_more_capacity_than_it_owns";
 #endif
-                else { for (i = 0; i < slack + 2; i++) spif_mbuff_append_from_ptr(b, (spif_byteptr_t) "z", 1); spif_mbuff_clear(b, 'q'); spif_mbuff_del(a); if (b->len != slack + 4) msg = "copy_unusable_after_original_deleted"; spif_mbuff_del(b); }
+                else { for (i = 0; i < slack + 2; i++) spif_mbuff_append_from_ptr(b, (spif_byteptr_t) "z", 1); spif_mbuff_clear(b, 'q'); spif_mbuff_del(a); if (b->len != L + slack + 2) msg = "copy_unusable_after_original_deleted"; spif_mbuff_del(b); }
             } else {
                 int u8 = (c[0] == 'u');
-                spif_str_t a = u8 ? (spif_str_t) spif_ustr_new_from_buff((spif_charptr_t) "ab", 3 + slack) : spif_str_new_from_buff((spif_charptr_t) "ab", 3 + slack);
+                spif_str_t a = u8 ? (spif_str_t) spif_ustr_new_from_buff((spif_charptr_t) txt, L + 1 + slack) : spif_str_new_from_buff((spif_charptr_t) txt, L + 1 + slack);
                 spif_str_t b = SPIF_STR(SPIF_OBJ_DUP(SPIF_OBJ(a)));
-                if (!b || b == a || b->s == a->s) msg = "copy_shares_storage";
-                else if (b->len != 2 || strcmp((char *) b->s, "ab")) msg = "copy_differs";
+                if (!b || b == a || (a->s && b->s == a->s)) msg = "copy_shares_storage";
+                else if (b->len != L || strcmp((char *) (b->s ? b->s : (spif_charptr_t) ""), txt)) msg = "copy_differs";
 #ifdef VH_ASAN
-                else if (__sanitizer_get_allocated_size(b->s) < (size_t) b->size) msg = "copy_reports_more_capacity_than_it_owns";
+                else if (b->s && __sanitizer_get_allocated_size(b->s) < (size_t) b->size) msg = "copy_reports_more_capacity_than_it_owns";
 #endif
                 else {
                     for (i = 0; i < slack + 2; i++) { if (u8) spif_ustr_append_char((spif_ustr_t) b, 'z'); else spif_str_append_char(b, 'z'); }
                     if (u8) spif_ustr_clear((spif_ustr_t) b, 'q'); else spif_str_clear(b, 'q');
                     SPIF_OBJ_DEL(SPIF_OBJ(a));
-                    if (b->len != slack + 4 || strlen((char *) b->s) != (size_t) b->len) msg = "copy_unusable_after_original_deleted";
+                    if (b->len != L + slack + 2 || strlen((char *) b->s) != (size_t) b->len) msg = "copy_unusable_after_original_deleted";
                     SPIF_OBJ_DEL(SPIF_OBJ(b));
                 }
             }
@@ -191,7 +194,7 @@ static void dup_probe(const char *c) {
         close(p[0]);
         waitpid(pid, &st, 0);
         if (!(WIFEXITED(st) && WEXITSTATUS(st) == 0) && r <= 0) strcpy(why, "memory_fault_or_abort");
-        printf("{\"dupprobe\":\"%s\",\"slack\":%d,\"verdict\":\"%s\"}\n", c, slacks[k], why);
+        printf("{\"dupprobe\":\"%s\",\"slack\":%d,\"content\":\"%s\",\"verdict\":\"%s\"}\n", c, slacks[k], L ? "text" : "empty", why);
         fflush(stdout);
     }
 }
